@@ -239,6 +239,14 @@ func (c *Conn) Reset() {
 	p.mu.Unlock()
 }
 
+// Configure changes the fault fields (FailWriteAt, FailReadAt, MaxRead,
+// WriteAfterPeerCloseOK) of a pair that may already be in use.
+func (p *Pair) Configure(f func(p *Pair)) {
+	p.mu.Lock()
+	f(p)
+	p.mu.Unlock()
+}
+
 // SetAddr overrides the local address of end i (before the pair is used): lets
 // a test present address forms a real listener can produce (IPv4-mapped, zoned,
 // non-TCP).
